@@ -24,7 +24,7 @@ func init() {
 		Rule: "families of 2..4 constructed xxhash64-colliding 64-byte keys (equality of Sum64 asserted) plus plain keys; seeded sequences of Write/Read/Delete/Load/Store, Failover/FailoverOf.Get, AddLabels+InvalidateByLabels and Dump/Restore over them on all backends, " +
 			"judged by the collision-slot model (a key returns its own last value, or at most a miss if a partner was written since; never a partner's value, stale item or deletion); after every call that takes a key the passed buffer is overwritten " +
 			"(with a partner key / noise) and stored keys, label associations and the key of gated background builds are re-checked with fresh buffers; distinct_nontrivial = distinct (backend, family size, op-kind trace) sequences in which a partner write preceded a read/delete of the other key",
-		Required:    []string{"sequences", "collision.partner_written_then_read", "collision.partner_written_then_deleted", "collision.miss_observed", "buffer.overwritten_after_call", "bg.gated_builds", "bg.failing_builds", "bg.partner_gets_during_build", "collision.concurrent_rounds", "labels.invalidations", "failover.gets", "dumprestore.checked", "kind.ShardedMap", "kind.SyncMap", "kind.ShardedMapOf"},
+		Required:    []string{"sequences", "collision.partner_written_then_read", "collision.partner_written_then_deleted", "collision.miss_observed", "buffer.overwritten_after_call", "bg.gated_builds", "bg.failing_builds", "bg.partner_gets_during_build", "collision.concurrent_rounds", "labels.invalidations", "failover.gets", "dumprestore.checked", "kind.ShardedMap", "kind.SyncMap", "kind.ShardedMapOf", "writes.value_equal_to_another_keys_value"},
 		Assumptions: []string{"collision keys are constructed for xxhash64 with seed 0 (cespare/xxhash v2) and verified at run time"},
 		Timeout:     func(string) time.Duration { return 45 * time.Minute },
 	})
@@ -177,6 +177,16 @@ func c09Sequence(b *Batch, idx int) {
 			op = "Write"
 			tokN++
 			tok := fmt.Sprintf("k%d/w/%d", ki, tokN)
+			if rng.Intn(5) == 0 {
+				// the same value as another key currently holds (equal values under different keys are ordinary data)
+				for j := range keys {
+					if j != ki && model[j].present && (keys[j].family == keys[ki].family || rng.Intn(4) == 0) {
+						tok = model[j].tok
+						b.R.Count("writes.value_equal_to_another_keys_value", 1)
+						break
+					}
+				}
+			}
 			exp := rng.Intn(4) == 0
 			ctx := cache.WithTTL(bg, time.Hour, false)
 			if exp {
@@ -247,7 +257,7 @@ func c09Sequence(b *Batch, idx int) {
 			v, err := get(bg, buf, func() (string, error) { built = true; return tok, nil })
 			after()
 			m := &model[ki]
-			if err != nil || tokKey(v) != ki {
+			if err != nil || (tokKey(v) != ki && !(m.present && v == m.tok)) {
 				fail("Get-foreign", fmt.Sprintf("key #%d: Failover.Get returned (%q,%v)", ki, v, err))
 			}
 			if built {
@@ -307,7 +317,7 @@ func c09Sequence(b *Batch, idx int) {
 				}
 				if found < 0 {
 					fail("stored-key-corrupted", fmt.Sprintf("Walk reports key %s which was never written (caller buffer aliased?)", keyLabel(k)))
-				} else if s, ok := v.(string); ok && tokKey(s) != found {
+				} else if s, ok := v.(string); ok && tokKey(s) != found && !(model[found].present && model[found].tok == s) {
 					fail("stored-under-wrong-key", fmt.Sprintf("Walk reports key #%d holding %s", found, s))
 				}
 				return nil
@@ -323,7 +333,7 @@ func c09Sequence(b *Batch, idx int) {
 		dst.Walk(func(k []byte, v interface{}, _ timeT) error {
 			for j := range keys {
 				if bytes.Equal(keys[j].bytes, k) {
-					if s, ok := v.(string); ok && tokKey(s) != j {
+					if s, ok := v.(string); ok && tokKey(s) != j && !(model[j].present && model[j].tok == s) {
 						fail("restore-mixed-keys", fmt.Sprintf("restored key #%d holds %s", j, s))
 					}
 					return nil
